@@ -902,3 +902,71 @@ Print Assumptions gen_q_get_long_leg.
 Print Assumptions gen_q_get_long_leg_rejects.
 Print Assumptions gen_q_set_center.
 Print Assumptions gen_q_get_one_vertex.
+
+(* ---- get_one_vertices characterised: the single legs that _gen_one_legs sees are the maximal run of one-vertex legs right behind the centre
+   (the loop over range(1, len(legs)) stops at the first longer leg: the legs are sorted by length, see gen_q_append_sorted), and
+   get_one_vertices returns their vertices in that order.  This discharges the hypothesis `py_Q_get_one_vertices legs = FRet ones` of
+   gen_q_check_dependency and gen_q_get_pq on every graph with at least two legs. ---- *)
+Fixpoint take_ones (l : list (list pstr)) : list (list pstr) :=
+  match l with [] => [] | x :: r => if (length x =? 1)%nat then x :: take_ones r else [] end.
+Lemma take_ones_all1 l : Forall (fun x => length x = 1%nat) (take_ones l).
+Proof. induction l as [|x r IH]; cbn [take_ones]; [constructor|]. destruct (length x =? 1)%nat eqn:E; [constructor; [lia|exact IH]|constructor]. Qed.
+Lemma take_ones_prefix l : exists t, l = take_ones l ++ t /\ match t with [] => True | x :: _ => length x <> 1%nat end.
+Proof.
+  induction l as [|x r [t [E Ht]]]; [exists []; split; [reflexivity|exact I]|]. cbn [take_ones]. destruct (length x =? 1)%nat eqn:E1.
+  - exists t. split; [cbn [app]; f_equal; exact E|exact Ht].
+  - exists (x :: r). split; [reflexivity|lia].
+Qed.
+Lemma idx_behind {A} (c : A) pre x r : idx_ok (c :: pre ++ x :: r) (1 + Z.of_nat (length pre)) = true.
+Proof.
+  unfold idx_ok, py_index. assert (E : (1 + Z.of_nat (length pre) <? 0) = false) by lia. rewrite E.
+  assert (E2 : ((0 <=? 1 + Z.of_nat (length pre)) && (1 + Z.of_nat (length pre) <? Z.of_nat (length (c :: pre ++ x :: r)))) = true) by (cbn [length]; rewrite app_length; cbn [length]; lia).
+  rewrite E2. reflexivity.
+Qed.
+Lemma get_behind {A} (d c : A) pre x r : list_get d (c :: pre ++ x :: r) (1 + Z.of_nat (length pre)) = x.
+Proof.
+  rewrite list_get_nth by (try apply idx_behind; lia). replace (Z.to_nat (1 + Z.of_nat (length pre))) with (S (length pre)) by lia.
+  cbn [nth]. rewrite app_nth2 by lia. replace (length pre - length pre)%nat with 0%nat by lia. reflexivity.
+Qed.
+Lemma gen_one_legs_loop c : forall rest pre out,
+  py_Q__gen_one_legs_loop1 (map (fun k_ => 1 + Z.of_nat k_) (seq (length pre) (length rest))) (c :: pre ++ rest) out = FRet (out ++ take_ones rest).
+Proof.
+  induction rest as [|x r IH]; intros pre out; [cbn; rewrite app_nil_r; reflexivity|].
+  cbn [length seq map py_Q__gen_one_legs_loop1 take_ones]. rewrite idx_behind, get_behind.
+  destruct (length x =? 1)%nat eqn:E1.
+  - assert (E : (Z.of_nat (length x) =? 1) = true) by lia. rewrite E. cbv zeta.
+    replace (c :: pre ++ x :: r) with (c :: (pre ++ [x]) ++ r) by (rewrite <- app_assoc; reflexivity).
+    replace (S (length pre)) with (length (pre ++ [x])) by (rewrite app_length; cbn [length]; lia).
+    rewrite IH. rewrite <- app_assoc. reflexivity.
+  - assert (E : (Z.of_nat (length x) =? 1) = false) by lia. rewrite E. rewrite app_nil_r. reflexivity.
+Qed.
+Theorem gen_q_gen_one_legs c rest : (2 <= length rest)%nat -> py_Q__gen_one_legs (c :: rest) = FRet (take_ones rest).
+Proof.
+  intros H. unfold py_Q__gen_one_legs, py_Q_is_empty_legs. cbv zeta. assert (E : (Z.of_nat (length (c :: rest)) <? 3) = false) by (cbn [length]; lia). rewrite E.
+  replace (Z.to_nat (Z.of_nat (length (c :: rest)) - 1)) with (length rest) by (cbn [length]; lia).
+  exact (gen_one_legs_loop c rest [] []).
+Qed.
+Theorem gen_q_get_one_vertices c rest : (2 <= length rest)%nat ->
+  py_Q_get_one_vertices (c :: rest) = FRet (map (@hd pstr (@nil pl)) (take_ones rest)).
+Proof.
+  intros H. unfold py_Q_get_one_vertices. cbv zeta. rewrite (gen_q_gen_one_legs c rest H). cbv beta iota.
+  match goal with |- context [fold_left ?F0 _ (FRet ?s)] => set (F := F0) end.
+  assert (L : forall l acc, Forall (fun x : list pstr => length x = 1%nat) l -> fold_left F l (FRet acc) = FRet (acc ++ map (@hd pstr (@nil pl)) l)).
+  { induction l as [|x r IH]; intros acc HF; [cbn; rewrite app_nil_r; reflexivity|]. inversion HF as [|? ? Hx Hr]; subst. cbn [fold_left map].
+    unfold F at 2. assert (E : Nat.eqb (length x) 0 = false) by lia. rewrite E. cbn [negb]. cbv zeta. rewrite (IH _ Hr). rewrite <- app_assoc. reflexivity. }
+  rewrite (L _ [] (take_ones_all1 rest)). reflexivity.
+Qed.
+Theorem gen_q_get_one_vertices_rejects legs : (length legs < 3)%nat -> py_Q_get_one_vertices legs = FRaised (EUser "MorphFactoryException").
+Proof. intros H. unfold py_Q_get_one_vertices, py_Q__gen_one_legs, py_Q_is_empty_legs. cbv zeta. assert (E : (Z.of_nat (length legs) <? 3) = true) by lia. rewrite E. reflexivity. Qed.
+(* on a star of single legs (every leg behind the centre has one vertex) get_one_vertices returns every vertex but the centre *)
+Theorem gen_q_get_one_vertices_star c rest : (2 <= length rest)%nat -> Forall (fun x => length x = 1%nat) rest ->
+  py_Q_get_one_vertices (c :: rest) = FRet (concat rest).
+Proof.
+  intros H HF. rewrite (gen_q_get_one_vertices c rest H). f_equal. clear H. induction rest as [|x r IH]; [reflexivity|].
+  inversion HF as [|? ? Hx Hr]; subst. cbn [take_ones]. assert (E : (length x =? 1)%nat = true) by lia. rewrite E. cbn [map concat]. rewrite (IH Hr).
+  destruct x as [|a [|b x]]; try discriminate Hx. reflexivity.
+Qed.
+Print Assumptions gen_q_gen_one_legs.
+Print Assumptions gen_q_get_one_vertices.
+Print Assumptions gen_q_get_one_vertices_rejects.
+Print Assumptions gen_q_get_one_vertices_star.
